@@ -133,6 +133,14 @@ def weak_oracle(args):
     else:
         qc.x(n - 1); qc.h(0)  # noqa: E702
     p = WeakSimParams(shots=shots, show_progress=False)
+    # history: the same parameter object served earlier runs (noisy and/or noise-free) of another circuit
+    for hn in args.get("history", []):
+        prev = QuantumCircuit(n)
+        prev.x(n - 1)
+        prev.h(0)
+        hnm = NoiseModel([{"name": "pauli_z", "sites": [q], "strength": 0.05} for q in range(n)]) if hn else None
+        with common.time_limit(200):
+            simulator.run(MPS(n), prev, p, hnm, parallel=False)
     # "noisy" runs: an ordinary strength, or one of the borderline strengths at which the front-end and the trajectory routine must
     # agree on whether the run counts as noise-free (0.0, denormal-small, 1e-13, 1e-9)
     strength = float(args.get("strength", 0.05))
@@ -165,11 +173,14 @@ def search(ctx):
             ctx.violation("measure", why, {"oracle": "measure", "args": a})
     plan = [dict(n=3, shots=20, kind="ghz", noisy=False), dict(n=3, shots=5, kind="flip0", noisy=False), dict(n=3, shots=7, kind="x_last", noisy=False),
             dict(n=2, shots=6, kind="flip0", noisy=True), dict(n=3, shots=1, kind="x_last", noisy=False),
+            dict(n=3, shots=9, kind="flip0", noisy=False, history=[True]), dict(n=2, shots=5, kind="flip0", noisy=True, history=[False]),
+            dict(n=3, shots=6, kind="ghz", noisy=False, history=[True, False, True]),
             dict(n=2, shots=7, kind="flip0", noisy=True, strength=0.0), dict(n=2, shots=7, kind="flip0", noisy=True, strength=1e-13),
             dict(n=3, shots=5, kind="x_last", noisy=True, strength=1e-9), dict(n=2, shots=4, kind="flip0", noisy=True, strength=5e-324)]
     if not ctx.quick:
         plan += [dict(n=int(ctx.rng.integers(2, 5)), shots=int(ctx.rng.integers(1, 30)), kind=str(ctx.rng.choice(["ghz", "flip0", "x_last"])), noisy=bool(ctx.rng.random() < 0.4),
-                      strength=float(ctx.rng.choice([0.05, 0.0, 1e-15, 1e-13, 1e-11, 1e-7, 0.3]))) for _ in range(20)]
+                      strength=float(ctx.rng.choice([0.05, 0.0, 1e-15, 1e-13, 1e-11, 1e-7, 0.3])),
+                      history=[bool(b) for b in ctx.rng.integers(0, 2, size=int(ctx.rng.integers(0, 3)))]) for _ in range(20)]
     for a in plan:
         try:
             why = weak_oracle(a)
